@@ -6,7 +6,10 @@ R05d refusal instead of silent reduction: wire values used as exponents carry a 
      values used as bases / group elements carry a membership fact,
 R05e the fixed-base powers refuse a base that differs from their table,
 R05a variadic hash arity: a count below the number of values passed leaves the trailing ones out of
-     the challenge (violation); a count above it is C12's; R05c informational."""
+     the challenge (violation); a count above it is C12's; R05c informational,
+R05g Fiat-Shamir coverage on the proving side: in a function that sends a response computed from a
+     challenge hash, every other value it sends on that stream is an input of a challenge hash
+     (a first-move value left out can be chosen after the challenge is known)."""
 import ast
 from . import invcheck, verifiers
 from .. import inventory
@@ -54,6 +57,7 @@ def run(ctx):
     ctx.floor('R05d', nd, 50)
     r05e(ctx)
     r05a(ctx)
+    r05g(ctx)
 
 
 def bound_leaves(ctx, f):
@@ -320,3 +324,72 @@ EXPLANATION = ("Static dependence and sanitizer analysis over every offered veri
                "itself is not decided.")
 ASSUMPTIONS = ["dependence is syntactic/term-level: a check that depends on a value is assumed to constrain it",
                "arrays summarised per container", "quadratic-residue proofs of SchindelhauerTMCG are outside the refusal clause (R05d scope table)"]
+
+
+# values a Fiat-Shamir prover sends without hashing them, one reason each
+FS_UNHASHED_OK = {
+    ('BarnettSmartVTMF_dlog::OR_ProveFirst', 'c_2'): 'simulated branch of the OR composition: its challenge share is drawn before the hash by construction; the verifier checks c_1 + c_2 = H(...)',
+    ('BarnettSmartVTMF_dlog::OR_ProveFirst', 'r_2'): 'simulated branch of the OR composition: response drawn with the challenge share',
+    ('BarnettSmartVTMF_dlog::OR_ProveSecond', 'c_1'): 'simulated branch of the OR composition (mirror image)',
+    ('BarnettSmartVTMF_dlog::OR_ProveSecond', 'r_1'): 'simulated branch of the OR composition (mirror image)',
+}
+
+
+def r05g(ctx):
+    prog = ctx.prog
+
+    def rootloc(l):
+        while isinstance(l, tuple) and l[0] in ('f', 'e', 'stream'):
+            l = l[1]
+        return l
+    nfun = 0
+    nval = 0
+    for k, f in sorted(prog.funcs.items(), key=lambda kv: (kv[1]['q'], kv[0])):
+        if not f.get('body') or prog.is_helper(f) or not any(f['q'].startswith(c + '::') for c in DLOG_SCOPE):
+            continue
+        hc = [e for e in walk(f['body']) if e.get('k') == 'call' and e.get('f', '').startswith('tmcg_mpz_shash')]
+        outs = set(p['id'] for p in f['params'] if 'ostream' in p['t'] and p['n'] != 'err')
+        if not hc or not outs:
+            continue
+        a = ctx.analysis(f)
+        T = a.T
+        hterms = set(ev[2] for nid, ev in a.all_events('write') if T.op(ev[2]) == 'hash')
+        snds = [(nid, ev) for nid, ev in a.all_events('snd') if ev[1] and ev[1][0] == 'v' and ev[1][1] in outs and len(ev) > 5]
+
+        def depends(v):
+            return any(T.contains(v, lambda z, h=h: z == T.node(h)) for h in hterms)
+        if not any(depends(ev[2]) and ev[2] not in hterms for nid, ev in snds):
+            continue        # no response computed from a challenge: not a Fiat-Shamir prover
+        nfun += 1
+        H = set()
+        for e in hc:
+            for x in e['a'][1:]:
+                for y in walk(x):
+                    if y.get('k') == 'var':
+                        H.add(('v', y['id'], y['n']))
+                    if y.get('k') == 'mem' and isinstance(y.get('o'), dict) and y['o'].get('k') == 'this':
+                        H.add(('m', y['n']))
+        seen = set()
+        for nid, ev in sorted(snds, key=lambda x: (x[1][3], x[0])):
+            v, l = ev[2], ev[5]
+            if depends(v):
+                continue
+            vn = T.node(v)
+            if vn[0] in ('str', 'int', 'sym'):
+                continue    # separators
+            r = rootloc(l) if l else None
+            name = r[2] if r and r[0] == 'v' else (r[1] if r and r[0] == 'm' else T.show(v, 2))
+            key = 'R05g:%s:%s' % (f['q'], name)
+            if key in seen:
+                continue
+            seen.add(key)
+            nval += 1
+            if r in H:
+                ctx.ok('R05g', key, 'first-move value is an input of the challenge hash', f, line=ev[3])
+            elif (f['q'], name) in FS_UNHASHED_OK:
+                ctx.note('R05g', key, 'sent without being hashed, by design: ' + FS_UNHASHED_OK[(f['q'], name)], f, line=ev[3])
+            else:
+                ctx.bad('R05g', key, 'the prover sends %s without it being an input of any challenge hash of this proof: the value is not bound to the '
+                        'challenge and can be chosen after the challenge is known' % name, f, line=ev[3])
+    ctx.info['R05g_provers'] = nfun
+    ctx.floor('R05g', nval, 12)
